@@ -356,6 +356,16 @@ class World(object):
         act = cb.armed.pop(site, None)
         if act is None:
             return
+        if act.get('unregister'):
+            # a one-shot callback: removes itself from the object's list while being notified
+            self.bump('fault_F7_unregister_fired')
+            if st is not None:
+                st.extra.setdefault('f7_cids', set()).add(cb.cid)
+            try:
+                obj.callbacks.remove(cb)
+            except (ValueError, AttributeError):
+                pass
+            return
         if act.get('raise'):
             self.bump('fault_F3_fired')
             self.bump('fault_F3_fired_' + site)
@@ -1475,7 +1485,10 @@ class World(object):
         if not cbs:
             return
         cb = cbs[op.get('k', 0) % len(cbs)]
-        if op.get('raise'):
+        if op.get('unregister'):
+            cb.armed[op['site']] = {'unregister': True}
+            self.bump('fault_F7_unregister_armed')
+        elif op.get('raise'):
             cb.armed[op['site']] = {'raise': True}
             self.bump('fault_F3_armed')
         else:
